@@ -333,6 +333,7 @@ func init() {
 			names, _ := strconv.Atoi(f[3])
 			tsr, _ := strconv.Atoi(f[4])
 			seed, _ := strconv.Atoi(f[5])
+			skew := len(f) > 6 && f[6] == "1" // one busy name, the others offered about once in 2048 calls ("quiet" series)
 			validate.VerifReset()
 			acc := make([][][]uint32, g) // goroutine -> name -> accepted ts
 			done := make(chan bool)
@@ -343,6 +344,13 @@ func init() {
 					for i := 0; i < n; i++ {
 						x = x*6364136223846793005 + 1442695040888963407
 						nm := int((x >> 33) % uint64(names))
+						if skew && names > 1 {
+							if (x>>45)%2048 != 0 {
+								nm = 0
+							} else {
+								nm = 1 + int((x>>33)%uint64(names-1))
+							}
+						}
 						ts := uint32((x>>20)%uint64(tsr)) + 1
 						key := []byte("name" + strconv.Itoa(nm))
 						if validate.Ordered(key, ts) == nil {
